@@ -88,10 +88,11 @@ STUBS = [
 ]
 ASSUMPTIONS = [
     "boxes well-formed: 0 <= lo < hi <= N on every axis",
+    "the allocation helper is stubbed: the real create_named_sharded_matrix raises StopIteration for an all-ones shape, i.e. a single-cell (1x1x1) volume with a 1-component array is outside the proved domain",
     "placement orders of the objects are above the volume's (-1000); the volume is object 0 of the list",
     "material values concrete: dyadic rationals (exactly representable, exact inverses), pairwise distinct per object and component; the tier predicates of the code (math.isclose, relative tolerance 1e-9) are only exercised on values that are exactly equal or clearly different",
     "no devices, no sub-pixel smoothing, no dispersive materials, no boundaries/detectors in the scene (their arrays are outside this property)",
-    "masked objects carry a two-entry material dictionary; the painted material is the named one",
+    "masked objects carry a three-entry material dictionary (painted material, vacuum, another object's material); the painted material is the named one",
     "non-uniform grid: 'grid-scaled' is read as sigma * c*dt/courant_number (the reference spacing the code documents); uniform grid: sigma * spacing",
 ]
 MIN_OBLIGATIONS = {"quick": 800, "thorough": 4000}
@@ -110,7 +111,7 @@ DIAG = [(2.0, 4.0, 8.0), (4.0, 16.0, 2.0), (8.0, 2.0, 4.0), (16.0, 8.0, 32.0)]
 FULL = [
     (2.0, 1.0, 0.5, 0.0, 4.0, 1.0, 0.0, 0.0, 8.0),
     (4.0, 0.0, 0.0, 1.0, 2.0, 0.0, 0.5, 1.0, 8.0),
-    (8.0, 0.0, 2.0, 0.0, 4.0, 0.0, 1.0, 0.0, 2.0),
+    (8.0, 0.0, 2.0, 0.0, 4.0, 0.0, 0.0, 0.0, 2.0),
     (2.0, 0.5, 0.0, 0.0, 2.0, 0.5, 0.0, 0.0, 4.0),
 ]
 SIG_ISO = [0.5, 0.25, 2.0, 0.125]
@@ -121,6 +122,29 @@ SIG_FULL = [
     (0.25, 1.0, 0.0, 0.0, 2.0, 0.0, 0.5, 0.0, 1.0),
     (2.0, 0.0, 0.0, 0.5, 0.5, 0.0, 0.0, 0.25, 0.125),
 ]
+
+
+def _check_palette():
+    """the obligations compare exactly: every palette tensor must have an inverse whose entries are
+    dyadic rationals reproduced EXACTLY by float cofactor arithmetic (else the check itself would
+    raise a rounding false alarm)"""
+    from fractions import Fraction
+
+    for t9 in [(v, 0.0, 0.0, 0.0, v, 0.0, 0.0, 0.0, v) for v in ISO] + [(d[0], 0.0, 0.0, 0.0, d[1], 0.0, 0.0, 0.0, d[2]) for d in DIAG] + FULL:
+        for num in (float, Fraction):
+            m = [[num(t9[3 * r + c]) for c in range(3)] for r in range(3)]
+            det = m[0][0] * (m[1][1] * m[2][2] - m[1][2] * m[2][1]) - m[0][1] * (m[1][0] * m[2][2] - m[1][2] * m[2][0]) + m[0][2] * (m[1][0] * m[2][1] - m[1][1] * m[2][0])
+            cof = [[(m[(c + 1) % 3][(r + 1) % 3] * m[(c + 2) % 3][(r + 2) % 3] - m[(c + 1) % 3][(r + 2) % 3] * m[(c + 2) % 3][(r + 1) % 3]) / det for c in range(3)] for r in range(3)]
+            if num is float:
+                inv_f = cof
+            else:
+                inv_q = cof
+        assert all(Fraction(inv_f[r][c]) == inv_q[r][c] for r in range(3) for c in range(3)), f"palette tensor {t9} has no exactly representable inverse"
+        for v in ISO:
+            assert Fraction(1.0 / v) == 1 / Fraction(v)
+
+
+_check_palette()
 
 
 def _val(tier, k, conductive=False):
@@ -189,6 +213,19 @@ def _materials(scn, salt=0):
     return out
 
 
+def _material_dict(k, mats):
+    """material dictionary of masked object k: the painted material, vacuum (always sorts first in
+    the code's canonical material order, so the painted index is never 0) and another object's
+    material; insertion order varies with k"""
+    import fdtdx
+
+    other = mats[(k + 1) % 3 + 1]
+    vac = fdtdx.Material()
+    if k % 2 == 0:
+        return {"painted": mats[k + 1], "unused": other, "vacuum": vac}
+    return {"a_unused": other, "vacuum": vac, "painted": mats[k + 1]}
+
+
 def _tier_needed(t9):
     if any(t9[i] != 0 for i in (1, 2, 3, 5, 6, 7)):
         return 9
@@ -250,7 +287,15 @@ def _equals_scaled(T, M9, scale):
 # ---------------------------------------------------------------------------------------
 
 
+_FRAME = {"on": False, "made": []}
+
+
 def _stub_create(shape, value, sharding_axis=None, dtype=None, backend=None):
+    if _FRAME["on"]:
+        # frame lemma: the loop starts from an ARBITRARY prior state instead of the zero fill
+        arr = A.fresh_array(f"prior{len(_FRAME['made'])}", tuple(shape), A._dtype_kind(dtype) if dtype is not None else "real")
+        _FRAME["made"].append(arr)
+        return arr
     return A.full(tuple(shape), value, dtype)
 
 
@@ -351,8 +396,7 @@ def _contract(scn, kinds, orders, grid_kind, salt=0):
                         o = UniformMaterialObject(name=name, material=mats[k + 1], placement_order=order[k])
                         cov = inbox
                     else:
-                        other = mats[(k + 1) % 3 + 1]  # a second dictionary entry (another object's material)
-                        md = {"painted": mats[k + 1], "unused": other} if k % 2 == 0 else {"a_unused": other, "painted": mats[k + 1]}
+                        md = _material_dict(k, mats)
                         if kinds[k] == "m":
                             o = Sphere(name=name, materials=md, material_name="painted", radius=1.0, placement_order=order[k])
                             mshape = gshape
@@ -360,8 +404,7 @@ def _contract(scn, kinds, orders, grid_kind, salt=0):
                             o = Cylinder(name=name, materials=md, material_name="painted", radius=1.0, axis=1, placement_order=order[k])
                             mshape = (gshape[0], 1, gshape[2])
                         M = A.fresh_array(f"mask{k}", mshape, "bool")
-                        if oi == 0:
-                            inp.array(f"mask{k}", M, default=True)
+                        inp.array(f"mask{k}_{tag}", M, default=None)
                         masks[name] = M
                         loc = [A._raw_index(cell[a] - boxes[k][a][0]) if not (A._is_pyint(mshape[a]) and mshape[a] == 1) else 0 for a in range(3)]
                         cov = A._vand(inbox, M.at_index(tuple(loc)))
@@ -372,6 +415,106 @@ def _contract(scn, kinds, orders, grid_kind, salt=0):
                     c.cover("pre")
                 arrays, _cfg2, _info = I._init_arrays(container, cfg)
                 _post(c, f"ord{tag}", arrays, objs, covers, [-1000, *order], mats, cell_raw, shape, scale)
+        finally:
+            Sphere.get_voxel_mask_for_shape, Cylinder.get_voxel_mask_for_shape = saved
+
+    return body
+
+
+def _frame_contract(scn, pair, kinds, salt=0):
+    """Induction step of the painting loop: two consecutive iterations of the REAL loop body on an
+    ARBITRARY prior array state (the allocation stub hands out fresh symbolic arrays; the volume
+    is a stand-in that is not a static material object, so nothing is painted before):
+        new[x] = value(o) if o covers x (top-priority rule among the two) else prior[x]."""
+
+    def body(c, inp):
+        import fdtdx.fdtd.initialization as I
+        from fdtdx.fdtd.container import ObjectContainer
+        from fdtdx.objects.static_material.cylinder import Cylinder
+        from fdtdx.objects.static_material.sphere import Sphere
+        from fdtdx.objects.static_material.static import UniformMaterialObject
+
+        shape = scene.sym_shape()
+        for n, v in zip("xyz", shape):
+            inp.scalar(f"N{n}", v)
+        cfg, scale = _grid_config("uniform", shape, inp)
+        allmats = _materials(scn, salt)
+        mats = [allmats[0], allmats[pair[0]], allmats[pair[1]], allmats[pair[0]]]
+        inp.note("scenario", {"materials": scn, "pair": pair, "kinds": kinds, "salt": salt})
+        cell = []
+        for a in range(3):
+            x = sym_int(f"cell{a}", lo=0)
+            ctx().assume((x < shape[a]).z)
+            inp.scalar(f"cell{a}", x)
+            cell.append(x)
+        cell_raw = tuple(A._raw_index(x) for x in cell)
+        boxes = []
+        for k in range(2):
+            box = []
+            for a in range(3):
+                lo = sym_int(f"o{k}lo{a}", lo=0)
+                hi = sym_int(f"o{k}hi{a}")
+                ctx().assume((lo < hi).z)
+                ctx().assume((hi <= shape[a]).z)
+                inp.scalar(f"o{k}lo{a}", lo)
+                inp.scalar(f"o{k}hi{a}", hi)
+                box.append((lo, hi))
+            boxes.append(tuple(box))
+        masks = {}
+        saved = (Sphere.get_voxel_mask_for_shape, Cylinder.get_voxel_mask_for_shape)
+        Sphere.get_voxel_mask_for_shape = lambda self: masks[self.name]
+        Cylinder.get_voxel_mask_for_shape = lambda self: masks[self.name]
+        try:
+            for order in ((0, 1), (1, 0), (0, 0)):
+                tag = "".join(map(str, order))
+                vol = scene.Volume(shape)
+                objs = []
+                covers = []
+                for k in range(2):
+                    name = f"f{k}_{tag}"
+                    gshape = tuple(hi - lo for lo, hi in boxes[k])
+                    inbox = True
+                    for a in range(3):
+                        inbox = A._vand(inbox, A._vand(boxes[k][a][0] <= cell[a], cell[a] < boxes[k][a][1]))
+                    if kinds[k] == "b":
+                        o = UniformMaterialObject(name=name, material=mats[k + 1], placement_order=order[k])
+                        cov = inbox
+                    else:
+                        md = _material_dict(k, mats)
+                        if kinds[k] == "m":
+                            o = Sphere(name=name, materials=md, material_name="painted", radius=1.0, placement_order=order[k])
+                            mshape = gshape
+                        else:
+                            o = Cylinder(name=name, materials=md, material_name="painted", radius=1.0, axis=1, placement_order=order[k])
+                            mshape = (gshape[0], 1, gshape[2])
+                        M = A.fresh_array(f"mask{k}", mshape, "bool")
+                        masks[name] = M
+                        loc = [A._raw_index(cell[a] - boxes[k][a][0]) if not (A._is_pyint(mshape[a]) and mshape[a] == 1) else 0 for a in range(3)]
+                        cov = A._vand(inbox, M.at_index(tuple(loc)))
+                    objs.append(scene._place(o, boxes[k], cfg))
+                    covers.append(cov)
+                container = ObjectContainer(object_list=[vol, *objs], volume_idx=0)
+                _FRAME["on"], _FRAME["made"] = True, []
+                try:
+                    arrays, _c2, _i = I._init_arrays(container, cfg)
+                finally:
+                    _FRAME["on"] = False
+                made = list(_FRAME["made"])
+                c.cover(f"pre{tag}")
+                # allocation order of the code: E, H, inv_permittivities, [inv_permeabilities], [sigma_E], [sigma_H]
+                prior = {}
+                it = iter(made[2:])
+                for attr in ("inv_permittivities", "inv_permeabilities", "electric_conductivity", "magnetic_conductivity"):
+                    if isinstance(getattr(arrays, attr), SymArray):
+                        prior[attr] = next(it, None)
+                masked = any(kd != "b" for kd in kinds)
+                for attr in ("inv_permittivities", "inv_permeabilities"):
+                    pa = prior.get(attr)
+                    if masked and pa is not None and A._is_pyint(pa.shape[0]) and pa.shape[0] in (1, 3):
+                        # the masked update passes through 1/(1/prior): needs a non-zero prior entry
+                        for comp in range(pa.shape[0]):
+                            ctx().assume(zbool(A._vnot(A.v_eq(pa.at_index((comp, *cell_raw)), 0))))
+                _post(c, f"frame{tag}", arrays, objs, covers, list(order), mats, cell_raw, shape, scale, prior=prior)
         finally:
             Sphere.get_voxel_mask_for_shape, Cylinder.get_voxel_mask_for_shape = saved
 
@@ -394,7 +537,7 @@ def _painted(o):
     return m if m is not None else o.materials[o.material_name]
 
 
-def _post(c, pre, arrays, objs, covers, orders, mats, cell, shape, scale):
+def _post(c, pre, arrays, objs, covers, orders, mats, cell, shape, scale, prior=None):
     allm = _all_materials(objs)
     specs = [
         ("inv_permittivities", "permittivity", "inverse"),
@@ -432,7 +575,15 @@ def _post(c, pre, arrays, objs, covers, orders, mats, cell, shape, scale):
                     hyp.append(z3.Not(zbool(covers[j])))
             M9 = tuple(getattr(_painted(o), prop))
             goal = _is_inverse(T, M9) if mode == "inverse" else _equals_scaled(T, M9, scale)
-            c.prove(f"{pre}/{attr}:cell_has_value_of_top_object[{'volume' if k == 0 else 'o%d' % (k - 1)}]", goal, extra_hyps=hyp)
+            label = ("volume" if k == 0 else "o%d" % (k - 1)) if prior is None else "f%d" % k
+            c.prove(f"{pre}/{attr}:cell_has_value_of_top_object[{label}]", goal, extra_hyps=hyp)
+        if prior is not None:
+            pa = prior.get(attr)
+            ok = c.prove(f"{pre}/{attr}:prior_state_identified", isinstance(pa, SymArray) and pa.ndim == 4 and pa.shape[0] == arr.shape[0])
+            if ok:
+                hyp = [z3.Not(zbool(cv)) for cv in covers]
+                goal = _conj([A.v_eq(arr.at_index((comp, *cell)), pa.at_index((comp, *cell))) for comp in range(arr.shape[0])])
+                c.prove(f"{pre}/{attr}:uncovered_cell_keeps_prior_value", goal, extra_hyps=hyp)
 
 
 # ---------------------------------------------------------------------------------------
@@ -445,7 +596,7 @@ def _chunks(seq, n):
 
 
 def tasks(tier, seed):
-    rnd = random.Random(seed)
+    offset = random.Random(seed).randrange(len(KINDS) - 1)
     out = {}
     conductive = {"sigE1", "sigE3", "sigE9", "sigH1", "sigH3", "sigH9", "mixed"}
     for scn in SCENARIOS:
@@ -454,8 +605,8 @@ def tasks(tier, seed):
             grids = ["uniform", "nonuniform"] if scn in conductive else ["uniform"]
             salts = [0, 1]
         else:
-            # quick: boxes-only with all orders, plus two seeded mixed-kind patterns
-            kind_list = ["bbb"] + rnd.sample(KINDS[1:], 2)
+            # quick: boxes-only plus one mixed-kind pattern (rotating through the patterns, seeded offset)
+            kind_list = ["bbb", KINDS[1 + (list(SCENARIOS).index(scn) + offset) % (len(KINDS) - 1)]]
             grids = ["uniform"] + (["nonuniform"] if scn in ("sigE3", "mixed") else [])
             salts = [0]
         for kinds in kind_list:
@@ -464,6 +615,18 @@ def tasks(tier, seed):
                     for ci, chunk in enumerate(_chunks(ORDERS, 13)):
                         key = f"{scn}/{kinds}/{g}/s{salt}/orders{ci}"
                         out[key] = Task(_contract(scn, kinds, chunk, g, salt), extra_patch=_patch(), max_paths=64)
+    # induction step (arbitrary prior state, two consecutive loop iterations)
+    for si, scn in enumerate(SCENARIOS):
+        pairs = [(1, 2), (2, 3), (3, 1)] if tier == "thorough" else [[(1, 2), (2, 3), (3, 1)][(si + offset) % 3]]
+        for pair in pairs:
+            for salt in ([0, 1] if tier == "thorough" else [0]):
+                ms = _materials(scn, salt)
+                wide = max(_tier_needed(getattr(ms[i], prop)) for i in pair for prop in ("permittivity", "permeability"))
+                kind_list = ["bb", "mb", "bc", "mm", "cm"] if tier == "thorough" else ["bb", ["mb", "bc", "mm", "cm"][(si + offset) % 4]]
+                for kinds in kind_list:
+                    if kinds != "bb" and wide == 9:
+                        continue  # masked update of a full-tensor prior needs inv(inv(M)) == M for symbolic M: not attempted
+                    out[f"frame/{scn}/p{pair[0]}{pair[1]}/{kinds}/s{salt}"] = Task(_frame_contract(scn, pair, kinds, salt), extra_patch=_patch(), max_paths=64)
     return out
 
 
@@ -503,6 +666,10 @@ def replay(key, obligation, witness):
     for b in boxes:
         if any(not (0 <= lo < hi <= n) for (lo, hi), n in zip(b, N)):
             return False, f"witness boxes {boxes} not well-formed for volume {N}"
+    if N == [1, 1, 1]:
+        # the real allocation helper create_named_sharded_matrix raises StopIteration on an all-ones
+        # shape (single-cell volume with a 1-component array); replay on a 2x1x1 volume instead
+        N[0] = 2
     s = sc.get("spacing", 1.0)
     s = float(s) if isinstance(s, (int, float)) and s > 0 else 1.0
     wa = witness_arrays_to_numpy(witness or {})
@@ -521,10 +688,9 @@ def replay(key, obligation, witness):
             o = UniformMaterialObject(name=f"ro{k}", material=mats[k + 1], placement_order=order[k])
             cv[sl] = True
         else:
-            other = mats[(k + 1) % 3 + 1]
-            md = {"painted": mats[k + 1], "unused": other} if k % 2 == 0 else {"a_unused": other, "painted": mats[k + 1]}
+            md = _material_dict(k, mats)
             mshape = gshape if kinds[k] == "m" else (gshape[0], 1, gshape[2])
-            mk = wa.get(f"mask{k}")
+            mk = wa.get(f"mask{k}_{''.join(map(str, order))}")
             if mk is None or mk.shape != mshape:
                 mk = rng.random(mshape) < 0.6
             mk = np.asarray(mk, dtype=bool)
@@ -542,10 +708,8 @@ def replay(key, obligation, witness):
     arrays, _, _ = I._init_arrays(ObjectContainer(object_list=objs, volume_idx=0), cfg)
     prio = [(-1000, 0)] + [(order[k], k + 1) for k in range(3)]
     top = np.zeros(N, dtype=int)
-    best = np.full(N, -(10**9), dtype=float)
     for k in sorted(range(4), key=lambda k: prio[k]):
         top = np.where(cover[k], k, top)
-    del best
     scale = float(fdtdx.constants.c * cfg.time_step_duration / cfg.courant_number)
     problems = []
     allm = _all_materials(objs)
